@@ -262,7 +262,41 @@ def io_level():
     return out
 
 
-for f in (control, io_level, lambda: cut(specs[0][1], "popen"), lambda: cut(specs[3][1], "popen//via"), lambda: cut(socket_gateway, "socket")):
+# the worker dies right after a burst of items: whatever it wrote must still arrive, on every transport -----------------------------------------
+def dying_burst():
+    out = []
+    shapes = [(20, 10), (3000, 10), (800, 100), (300, 2000)]
+    for name, mk in (specs[0], specs[2], specs[3]):
+        g = execnet.Group()
+        try:
+            gw = mk(g)
+            for count, size in shapes:
+                ch = gw.remote_exec("import os\nfor i in range(%d): channel.send((i, b'x' * %d))\nos._exit(0)" % (count, size))
+                got = 0
+                try:
+                    while True:
+                        i, _b = ch.receive(T)
+                        if i != got:
+                            out.append(f"{name}: item {got} of a dying worker's burst arrived as {i}")
+                            break
+                        got += 1
+                except EOFError:
+                    pass
+                if got != count:
+                    out.append(f"{name}: {got} of {count} items ({size} bytes each) arrived before EOF after the worker exited")
+                break_after = True
+                # the gateway is gone now: a new one for the next shape
+                finish(g)
+                g = execnet.Group()
+                gw = mk(g)
+        except Exception as e:
+            out.append(f"{name}: {type(e).__name__}: {e!s:.100}")
+        finally:
+            finish(g)
+    return out[:4]
+
+
+for f in (control, io_level, dying_burst, lambda: cut(specs[0][1], "popen"), lambda: cut(specs[3][1], "popen//via"), lambda: cut(socket_gateway, "socket")):
     n += 1
     bad += f()
 print(json.dumps({"failed": bool(bad), "results": bad[:6], "n": n}))
